@@ -1,6 +1,8 @@
 """C07 — culling, write masks and statistics behave as configured."""
 import collections
+import json
 import os
+import subprocess
 
 import c06
 import vf
@@ -31,7 +33,110 @@ def stats_extra(chk, tier):
         chk.note("extra-coverage: %d count renderings rejected, e.g. %s (human_num prints 99 950..99 999 and "
                  "99.95M.. six characters wide)" % (
                      byop["num"], next(str(b["info"][2])[:160] for b in bad if b["info"][1] == "num")))
-    chk.cov["extra_coverage"] = {"stats_histories": nrec, "stats_events": nev, "rejected_by_op": dict(byop)}
+    chk.cov.setdefault("extra_coverage", {}).update({"stats_histories": nrec, "stats_events": nev, "rejected_by_op": dict(byop)})
+
+
+BATCHPROG = os.path.join(vf.HARNESS, "batchprog")
+OPLINE = {
+    "faces": "let mut b = b.faces(faces(%d));", "vertices": "let mut b = b.vertices(verts(%d));",
+    "mesh": "let mut b = b.mesh(&mesh(%d));", "uniform": "let mut b = b.uniform(uni(%d));",
+    "shader": "let mut b = b.shader(shader(%d));", "viewport": "let mut b = b.viewport(vp(%d));",
+    "target": "let mut b = b.target(unsafe { &mut *p%d });", "context": "let mut b = b.context(&c%d);",
+}
+# calls the typestate does not offer (each built on its own: it must not compile), and offered twins
+NEG_PROGS = [
+    [("shader", 1)], [("vertices", 1), ("shader", 1)], [("uniform", 2), ("shader", 2)],
+    [("vertices", 1), ("uniform", 1), ("shader", 1), ("render", 0)],
+    [("vertices", 2), ("uniform", 1), ("target", 1), ("render", 0)],
+    [("mesh", 1), ("target", 2), ("context", 1), ("render", 0)],
+    [("vertices", 1), ("uniform", 1), ("shader", 1), ("target", 1), ("render", 0)],      # offered
+    [("mesh", 2), ("uniform", 2), ("shader", 2), ("context", 2), ("target", 2), ("render", 0), ("faces", 2), ("render", 0)],  # offered
+]
+
+
+def batch_fn(name, ops, draws, key):
+    ls = ["pub fn %s(out: &mut Vec<Value>) {" % name,
+          "    let (mut t1, mut t2) = (fb(), fb());", "    let (c1, c2) = (ctx(1), ctx(2));",
+          "    let (p1, p2): (*mut Fb, *mut Fb) = (&mut t1, &mut t2);", "    let mut panics: Vec<u8> = vec![];", "    {",
+          "        let mut b = Batch::new();"]
+    for c in ops:
+        ls.append("        " + ("panics.push(run(|| b.render()));" if c["op"] == "render" else OPLINE[c["op"]] % c["i"]))
+    ls += ["        let _ = (&mut b, p1, p2);", "    }"]
+    refs = ["&[%s]" % ", ".join("(%d, %d, %d, %d, %d, %d)" % (d["f"], d["v"], d["u"], d["s"], d["vp"], d["c"]) for d in dr) for dr in draws]
+    ls.append("    finish(out, %s, %s, &t1, &t2, &c1, &c2, panics, [%s, %s]);" % (
+        json.dumps(key), json.dumps(json.dumps(ops, separators=(",", ":"))), refs[0], refs[1]))
+    ls.append("}")
+    return ls
+
+
+def cargo_batch(args):
+    env = dict(os.environ, CARGO_NET_OFFLINE="true")
+    return subprocess.run(["cargo"] + args, cwd=BATCHPROG, env=env, stdout=subprocess.PIPE, stderr=subprocess.PIPE, text=True)
+
+
+def batch_extra(chk, tier):
+    """Growth beyond the statement: the render-batch builder as a typestate machine (BatchB.tla).  TLC explores
+    the machine and generates histories; each becomes a Rust function (so the compiler checks the typestate),
+    run against the real builder; pictures and statistics are judged by TV_BatchB.  Rejections are notes."""
+    d = vf.outdir("c07")
+    cons = {"MaxOps": 5 if tier == "quick" else 7, "Export": "FALSE"}
+    cfg = vf.write_cfg(os.path.join(d, "MC_BatchB.cfg"), cons, invariants=["Laws"], view="View")
+    r = vf.tlc("MC_BatchB", cfg, workers=6, gc="parallel", heap="6g")
+    chk.add_mc("MC_BatchB (extra coverage)", r, cons)
+    scons = {"MaxOps": 14, "Export": "TRUE"}
+    scfg = vf.write_cfg(os.path.join(d, "MC_BatchB_sim.cfg"), scons, invariants=["ExportInv"])
+    rs = vf.tlc("MC_BatchB", scfg, workers=1, simulate="num=%d" % (300 if tier == "quick" else 2000),
+                extra=["-depth", "16", "-seed", str(int(vf.seed()) + 11)], tag="MC_BatchB_sim")
+    hist = {}
+    for ln in rs.prints:
+        t = vf.parse_print(ln)
+        if t and t[0] == "REPLAY":
+            hist[t[1]] = json.loads(t[1])
+    keys = sorted(hist)
+    want = 400 if tier == "quick" else 3000
+    step = max(1, len(keys) // want)
+    chosen = [hist[k] for k in keys[::step]][:want]
+    if len(chosen) < 50:
+        raise vf.ToolError("MC_BatchB simulation exported only %d histories" % len(chosen))
+    src = ["// GENERATED by py/c07.py from histories exported by spec/MC_BatchB.tla - do not edit", "#![allow(unused_mut, unused_variables, unused_assignments)]",
+           "use crate::rt::*;", ""]
+    for i, h in enumerate(chosen):
+        src += batch_fn("p%d" % i, h["ops"], h["draws"], "bp%d" % i) + [""]
+    src.append("pub fn run_all(out: &mut Vec<Value>) {")
+    src += ["    p%d(out);" % i for i in range(len(chosen))]
+    src.append("}")
+    with open(os.path.join(BATCHPROG, "src", "progs.rs"), "w") as f:
+        f.write("\n".join(src) + "\n")
+    for j in range(8):
+        with open(os.path.join(BATCHPROG, "src", "neg%d.rs" % j), "w") as f:
+            ops = [{"op": o, "i": i} for o, i in NEG_PROGS[j]]
+            f.write("// GENERATED by py/c07.py\n#![allow(unused_mut, unused_variables, dead_code)]\nuse crate::rt::*;\n\n"
+                    + "\n".join(batch_fn("neg", ops, [[], []], "neg%d" % j)) + "\n")
+    p = cargo_batch(["build", "--release", "--offline"])
+    if p.returncode != 0:
+        # a history TLC says is offered does not compile: that is an observation, not a tool failure
+        chk.note("extra-coverage: the generated batch programs do not compile against this tree: %s" % p.stderr[-600:])
+        chk.cov.setdefault("extra_coverage", {})["batch_histories"] = 0
+        return
+    trace = os.path.join(d, "batch.trace.ndjson")
+    out = vf.run_harness(os.path.join(BATCHPROG, "target", "release", "batchprog"), [])
+    recs = [json.loads(l) for l in out.splitlines() if l.strip()]
+    drew = sum(1 for e in recs if sum(e["nonblank"]) > 0)
+    # the compile-only programs, one build each
+    for j in range(8):
+        p = cargo_batch(["check", "--release", "--offline", "--features", "neg%d" % j, "--message-format=short"])
+        bad_other = p.returncode != 0 and not any(c in p.stderr for c in ("E0277", "E0599", "E0308", "E0271", "E0282", "E0283"))
+        if bad_other:
+            raise vf.ToolError("compile-only batch program neg%d failed without a type error: %s" % (j, p.stderr[-400:]))
+        recs.append({"k": "neg%d" % j, "ops": [{"op": o, "i": i} for o, i in NEG_PROGS[j]], "compiled": 1 if p.returncode == 0 else 0})
+    vf.write_lines(trace, recs)
+    nrec, nev, bad = vf.validate_trace("TV_BatchB", trace, jvms=4)
+    vf.log("[tv] batch builder: %d histories / %d calls (TLC-generated, compiled, run) judged by TV_BatchB: %d rejected; %d drew pixels" % (
+        nrec, nev, len(bad), drew))
+    for b in bad[:5]:
+        chk.note("extra-coverage: batch history %s rejected (%s): %s" % (b["key"], b["info"][0], str(b["info"][1])[:300]))
+    chk.cov.setdefault("extra_coverage", {}).update({"batch_histories": nrec, "batch_calls": nev, "batch_rejected": len(bad),
+                                                     "batch_histories_that_drew": drew})
 
 
 def run(tier):
@@ -46,4 +151,10 @@ def run(tier):
                        "(the specification does not fix the sort key) nor when fragments tie in depth",
                        "time and frames statistics are not part of the statement"]
     stats_extra(chk, tier)
+    try:
+        batch_extra(chk, tier)
+    except (vf.ToolError, vf.HarnessHang, OSError, ValueError, KeyError) as ex:
+        # extra coverage never decides the property: its failure is reported, not raised
+        vf.log("[extra] batch builder step failed: %s" % str(ex)[:500])
+        chk.note("extra-coverage: the batch builder step did not complete: %s" % str(ex)[:300])
     return chk.finish()
